@@ -16,6 +16,28 @@ STRENGTHENED = {
     'C12_1': 'reported as HARNESS-ERROR at first (job thread burning CPU in a super-linear loop without clock reads); the watchdog now classifies a thread that hangs inside library code as violation clause "hang"',
     'C11_1': 'first evaluation aborted with a harness error (c11 imported j1939 before the seam loader when VERIF_REPO pointed elsewhere); import order fixed',
     'C11_2': 'as C11_1',
+    # ---- round 2 (ids continue after round 1).  "pre-emptive": the check was strengthened on reading the change's description,
+    #      before it was evaluated, so it is not known whether the earlier version would have missed it
+    'C05_3': 'missed at first (a listener registered for an address and removed again); C05 now registers and removes "ghost" listeners before the sweep and sends single transport frames to their addresses',
+    'C05_4': 'missed at first (data page 1 PDU1 frames treated as broadcast); the C05 sweep now also runs with the data-page bit set',
+    'C07_3': 'missed at first: the 10 ms probe timer kept waking the job thread and masked the lost wake-up; the probe timer is now absent in 40 % of the runs, and reactive frames can open a new inbound session (RTS / BAM from the peer)',
+    'C08_4': 'missed at first: in the chained-transfer shape the pull overtook the acknowledgement; a shape with a 0.5 ms delayed pull was added so that the receive-callback send_pgn falls into the pre-emption hold',
+    'C01_3': 'pre-emptive: a second parameter group on an (SA,DA) pair that already has a multi-packet message (refusal allowed, whatever is accepted must arrive intact)',
+    'C01_4': 'pre-emptive: the application submits the next message from inside the end-of-message-acknowledgement callback',
+    'C02_3': 'pre-emptive: as C01_4 for J1939-22 (EOMA callback)',
+    'C06_3': 'pre-emptive: early follow-up broadcast before the receivers\' T1 expires (single fault per run)',
+    'C07_4': 'pre-emptive: reactive / hostile CTS naming exactly "last segment + 1"',
+    'C09_3': 'pre-emptive: reference responder that dies while holding the connection (no data may follow the hold)',
+    'C09_4': 'pre-emptive: BAM pacing is also judged while a second send session merely waits for an absent peer',
+    'C10_3': 'caught by C07 (reactive abort inside the stack\'s own abort transmission), not by C10 itself',
+    'C10_4': 'caught by C02 (bidirectional traffic with equal session numbers), not by C10 itself',
+    'C12_4': 'pre-emptive: timer callbacks that take real (virtual) time, with an oracle that excuses exactly the timers that fall due while such a callback runs',
+    'C13_3': 'pre-emptive: clause independent of what the CA believes - no application frame from an address after a contender with a lower NAME claimed it',
+    'C14_6': 'pre-emptive: an early request window while claim histories are still running, so that the same CAs are asked again later in another state',
+    'C16_4': 'pre-emptive: the sender\'s callback may keep one lamp dict / code list and update them in place',
+    'C17_4': 'pre-emptive: a serving application that answers a read from inside the notify callback',
+    'C18_3': 'pre-emptive: boundary seeds 0x0000 and 0xFFFF handed out by the installed seed generator',
+    'C19_4': 'pre-emptive: client source address drawn from {0x00, 0x01, 253, 0xF9, random}',
 }
 rows = []
 for d in sorted(os.listdir(S)):
